@@ -118,6 +118,7 @@ ITEMS = [
          ensures=[('C20:staged_comment_has_no_line_break', 'break_free(r@)')],
          canaries=['C20:staged_comment_has_no_line_break']),
     dict(src='src/wrapping.rs', path='fn first_line_leading_spaces', props=['C12', 'C20', 'C01'],
+         bounded=dict(harness='bounded/wrapping.rs', items=[('src/wrapping.rs', '*')], subs=[(r'use crate::ser::Result;', 'use super::ser::Result;')]),
          loop_rewrites=[(1, 'split_lf')],
          rewrites=[(r"\b(\w+)\.trim_start_matches\(' '\)", r"str_trim_start_spaces(\1)", None, 'R8'),
                    (r'\b(\w+)\.len\(\) - (\w+(?:\([^()]*\))?)\.len\(\)', r'str_len_diff(\1, \2)', None, 'R8'),
@@ -143,6 +144,7 @@ ITEMS = [
          canaries=['C12:a_value_is_written_raw_only_if_it_reads_back_as_itself_else_quoted']),
     # ---- folding of long single lines (C20 / C12: a fold replaces exactly one space of a run by the line break) ----
     dict(src='src/wrapping.rs', path='fn write_folded_block', props=['C20', 'C12', 'C01'],
+         bounded=dict(harness='bounded/wrapping.rs', items=[('src/wrapping.rs', '*')], subs=[(r'use crate::ser::Result;', 'use super::ser::Result;')]),
          pre_rewrites=[(r'pub fn write_folded_block<W: Write>\(\s*out: &mut W,', 'fn write_folded_block(\n    out: &mut Sink,', 1, 'R9'),
                        (r'indent_buf\.reserve\(spaces\);', '', 1, 'R36')],
          loop_rewrites=[(1, 'range'), (2, 'split_lf'), (3, 'char_indices'), (4, 'range')],
